@@ -157,6 +157,34 @@ theorem C16_registered_in_range {m m' : Mgr} {c s e id : Nat}
   obtain ⟨lo, hi, hc, h1, h2⟩ := internSpan_ok_range h
   exact ⟨lo, hi, hc, h1, by omega⟩
 
+/-- **C16 trace_crop_total.** For every trace length `n` and every `--max-trace`
+    value `m` (including 0 and odd values): the two slices `stack[n - firstLen ..]`
+    and `stack[.. secondLen]` are in range, do not overlap, show exactly `m`
+    items together, and the hidden count is positive. -/
+theorem C16_trace_crop_total (n m : Nat) (h : m < n) :
+    ∃ fs fl hid sl, traceCrop n m = some (fs, fl, hid, sl) ∧
+      fs + fl = n ∧ sl ≤ fs ∧ fl + sl = m ∧ hid = n - m ∧ 0 < hid ∧ fl + hid + sl = n := by
+  unfold traceCrop
+  have : ¬ n ≤ m := by omega
+  rw [if_neg this]
+  refine ⟨_, _, _, _, rfl, ?_, ?_, ?_, rfl, ?_, ?_⟩ <;> omega
+
+theorem C16_trace_crop_none (n m : Nat) (h : n ≤ m) : traceCrop n m = none := by
+  unfold traceCrop; rw [if_pos h]
+
+/-- A position inside the source has line ≥ 1, column ≥ 1, and the line number
+    never exceeds the number of newline bytes + 1. -/
+theorem C16_lineCol_bounds (src : List Nat) (pos : Nat) :
+    1 ≤ (lineCol src pos).1 ∧ 1 ≤ (lineCol src pos).2 ∧
+    (lineCol src pos).1 ≤ (src.filter (· = 10)).length + 1 := by
+  unfold lineCol
+  refine ⟨by simp, by simp, ?_⟩
+  simp only
+  have : ((src.take pos).filter (· = 10)).length ≤ (src.filter (· = 10)).length := by
+    have h1 : (src.take pos).Sublist src := List.take_sublist pos src
+    exact (h1.filter _).length_le
+  omega
+
 /-! Non-vacuity: a concrete reachable manager with two contexts, one span that
     takes the inline path and one that takes the interned path. -/
 example : ∃ m id1 id2, Reachable m ∧ m.Cap ∧
@@ -195,3 +223,9 @@ open Rsj.Span in
 #print axioms C16_intern_idempotent
 open Rsj.Span in
 #print axioms C16_registered_in_range
+open Rsj.Span in
+#print axioms C16_trace_crop_total
+open Rsj.Span in
+#print axioms C16_trace_crop_none
+open Rsj.Span in
+#print axioms C16_lineCol_bounds
